@@ -272,7 +272,7 @@ func distinctPaths(pa, pb Term) bool {
 }
 
 func staticStep(s string) bool {
-	return strings.HasPrefix(s, "f:") || strings.HasPrefix(s, "g:")
+	return strings.HasPrefix(s, "f:") || strings.HasPrefix(s, "g:") || strings.HasPrefix(s, "i:")
 }
 
 // pathSteps decomposes (pfld (pfld ROOT 1) 2) into steps ["f:1","f:2"] and ROOT.
